@@ -1,0 +1,25 @@
+//go:build verif
+
+package worker
+
+import "sync/atomic"
+
+// Verification hook (build tag `verif` only): lets an external test harness
+// observe / delay execution at named points. Not part of the public API of
+// normal builds.
+
+var verifHook atomic.Value // of func(point string, obj interface{})
+
+// SetVerifHook installs (or, with nil, removes) the verification hook.
+func SetVerifHook(h func(point string, obj interface{})) {
+	if h == nil {
+		h = func(string, interface{}) {}
+	}
+	verifHook.Store(h)
+}
+
+func verifPoint(point string, obj interface{}) {
+	if h, ok := verifHook.Load().(func(string, interface{})); ok {
+		h(point, obj)
+	}
+}
